@@ -32,6 +32,7 @@ type vfSrvPlan struct {
 	StdoutStall    bool   // block after Stdout instead of EOF (real 10 s timeout)
 	DieAfterSends  int    // <0 never: server exits when the client runner sees its k-th send call
 	DieAfterResponse bool // server exits right after its response was read, before any request is sent
+	DieCleanly     bool   // the exit (DieAfterSends / DieAfterResponse) is a clean one: status 0, no error reported
 	Stderr         string
 	Desc           string
 }
@@ -43,7 +44,13 @@ type vfSrvCtl struct {
 	aborts    int
 	callbacks []func(error)
 	started   bool
+	clean     bool // an exit on its own reports no error (status 0)
+	aborted   bool
+	abortSeq  int64 // logical time of the first abort (0: never)
 }
+
+// vfSeq is a logical clock shared by the scripted server and client of a batch.
+var vfSeq atomic.Int64
 
 func (c *vfSrvCtl) die() {
 	c.doneOnce.Do(func() {
@@ -51,8 +58,14 @@ func (c *vfSrvCtl) die() {
 		c.mu.Lock()
 		cbs := append([]func(error){}, c.callbacks...)
 		c.mu.Unlock()
+		c.mu.Lock()
+		var err error = errors.New("server exited")
+		if c.clean && !c.aborted {
+			err = nil
+		}
+		c.mu.Unlock()
 		for _, cb := range cbs {
-			cb(errors.New("server exited"))
+			cb(err)
 		}
 	})
 }
@@ -67,6 +80,10 @@ func (c *vfSrvCtl) result() error {
 func (c *vfSrvCtl) abort() {
 	c.mu.Lock()
 	c.aborts++
+	c.aborted = true
+	if c.abortSeq == 0 {
+		c.abortSeq = vfSeq.Add(1)
+	}
 	c.mu.Unlock()
 	c.die()
 }
@@ -76,7 +93,13 @@ func (c *vfSrvCtl) whenDone(f func(error)) {
 	c.mu.Unlock()
 	select {
 	case <-c.done:
-		f(errors.New("server exited"))
+		c.mu.Lock()
+		var err error = errors.New("server exited")
+		if c.clean && !c.aborted {
+			err = nil
+		}
+		c.mu.Unlock()
+		f(err)
 	default:
 	}
 }
@@ -158,6 +181,7 @@ type vfFakeClient struct {
 	reqs       map[string]*conformancev1.ClientCompatRequest
 	expected   map[string]*conformancev1.ClientResponseResult
 	sentAfterDeath []string
+	lastFireSeq    int64 // logical time at which the last answer was handed to the runner
 }
 
 func (f *vfFakeClient) sendRequest(req *conformancev1.ClientCompatRequest, whenDone func(string, *conformancev1.ClientCompatResponse, error)) error {
@@ -189,6 +213,7 @@ func (f *vfFakeClient) sendRequest(req *conformancev1.ClientCompatRequest, whenD
 		defer f.cbWG.Done()
 		f.mu.Lock()
 		f.fired[name]++
+		f.lastFireSeq = vfSeq.Add(1)
 		f.mu.Unlock()
 		switch sc.Kind {
 		case "pass":
@@ -270,7 +295,7 @@ func vfRunBatch(rep *verifkit.Report, sc *vfBatchScenario, id string) {
 		fc.scripts[names[i]] = sc.Scripts[i%len(sc.Scripts)]
 		fc.expected[names[i]] = exp
 	}
-	ctl := &vfSrvCtl{done: make(chan struct{})}
+	ctl := &vfSrvCtl{done: make(chan struct{}), clean: sc.Srv.DieCleanly}
 	fc.srv = ctl
 	stdin := &vfFailWriter{failAt: sc.Srv.StdinFailAt, closeErr: sc.Srv.StdinCloseErr}
 	starts := 0
@@ -292,7 +317,7 @@ func vfRunBatch(rep *verifkit.Report, sc *vfBatchScenario, id string) {
 	}
 	results := newResults(sc.N, &testTrie{}, &testTrie{}, nil)
 	logP, errP := &vfLinePrinter{}, &vfLinePrinter{}
-	w := map[string]any{"scenario": id, "cases": sc.N, "reference_server": sc.RefServer, "tls": sc.TLS, "server_fault": sc.ServerFault + " " + sc.Srv.Desc, "send_error_at": sc.SendErrAt, "die_after_sends": sc.Srv.DieAfterSends, "scripts": sc.Scripts}
+	w := map[string]any{"scenario": id, "cases": sc.N, "reference_server": sc.RefServer, "tls": sc.TLS, "server_fault": sc.ServerFault + " " + sc.Srv.Desc, "send_error_at": sc.SendErrAt, "die_after_sends": sc.Srv.DieAfterSends, "exit_is_clean": sc.Srv.DieCleanly, "scripts": sc.Scripts}
 	rep.InFlight(w)
 	done := make(chan *verifkit.Panic, 1)
 	go func() {
@@ -455,6 +480,14 @@ func vfRunBatch(rep *verifkit.Report, sc *vfBatchScenario, id string) {
 		}
 		rep.Count("stderr_scripts_checked", 1)
 	}
+	// the server is asked to stop AFTERWARDS: while it is alive and answers are still outstanding it is not aborted
+	ctl.mu.Lock()
+	abortSeq := ctl.abortSeq
+	ctl.mu.Unlock()
+	lastFire := fc.lastFireSeq // fc.mu is held (deferred above)
+	if ctl.started && !faulty && sc.Srv.DieAfterSends < 0 && !sc.Srv.DieAfterResponse && abortSeq != 0 && lastFire > abortSeq {
+		rep.Violation("batch/server-stopped-while-answers-outstanding", fmt.Sprintf("the server was asked to stop (logical time %d) before the last answer of an accepted request had arrived (%d)", abortSeq, lastFire), w)
+	}
 	rep.DistinctKey(sig, sc.RefServer, sc.TLS, sc.SendErrAt, sc.Srv.DieAfterSends)
 	rep.Count("fault:"+sc.ServerFault, 1)
 }
@@ -505,7 +538,7 @@ func TestVerifC11Batch(t *testing.T) {
 					// a very long line (a stack dump, a hex dump): longer than any fixed line buffer
 					sb.WriteString("goroutine dump: " + strings.Repeat("x", verifkit.Pick(rng, []int{5000, 65535, 65536, 70000, 300000})) + " END-OF-LONG-LINE\n")
 				case 0:
-					sb.WriteString(verifkit.Pick(rng, names) + ": expected protocol X; instead got Y\n")
+					sb.WriteString(verifkit.Pick(rng, names) + verifkit.Pick(rng, []string{": expected protocol X; instead got Y\n", ": expected header 'te: trailers'; instead got te: gzip\n", ": a: b: c\n"}))
 				case 1:
 					sb.WriteString("Some Other Suite/case 9: not in this batch\n")
 				case 2:
@@ -573,6 +606,7 @@ func TestVerifC11Batch(t *testing.T) {
 			s2 := base()
 			s2.N, s2.Scripts = n, mkScripts(n)
 			s2.Srv.DieAfterSends, s2.ServerFault = k, "server-exits-after-k-sends"
+			s2.Srv.DieCleanly = (k+r)%2 == 0 // half of them leave with status 0
 			run(s2)
 			s3 := base()
 			s3.N, s3.Scripts = n, mkScripts(n)
@@ -585,6 +619,7 @@ func TestVerifC11Batch(t *testing.T) {
 		for k := 0; k < 3; k++ {
 			s4 := base()
 			s4.Srv.DieAfterSends, s4.SendErrAt = rng.Intn(s4.N+1), rng.Intn(s4.N+1)
+			s4.Srv.DieCleanly = rng.Bool()
 			s4.ServerFault = "server-exit-and-client-send-error"
 			run(s4)
 		}
